@@ -447,7 +447,7 @@ MANIFEST = {
             'for all models, strengths, targets and schedule positions: product form of '
             'BaseRegularizer; for DUCCIO sign, bounds of the effective strength, monotone ramp '
             'with exact end points (polynomial identities), zero when satisfied, positive when '
-            'violated, monotone in each cost; derived strengths clamped under no_grad.',
+            'violated, monotone in each cost; derived strengths clamped under no_grad. Derived strengths are finite: every division by a cost excess is dominated by excess > 0.',
     'note': 'Trusted base: abstract transfer functions (sa/numdom.py), polynomial normal form '
             '(sa/poly.py), generic-iteration treatment of the loop body. Assumes strength >= 0, '
             'epoch >= 0, n_epochs >= 1.',
